@@ -83,7 +83,7 @@ def _add_child_node(
     else:
         res = None
 
-    if parent_graph_node:
+    if parent_graph_node is not None:
         graph.add((parent_graph_node, NUTREE_NS.has_child, graph_node))
 
     if res is False:
